@@ -695,7 +695,36 @@ def value_name_defined_in_several_scopes(case):
     return any(v > 1 for v in seen.values())
 
 
+def cse_drops_output_type(case):
+    """onnx_ir's CommonSubexpressionEliminationPass (last stage of optimize_ir, outside /repo) merges a typed graph output with an untyped
+    duplicate and keeps the untyped value: the output loses its declared type.  Semantic predicate: with that pass replaced by a no-op the
+    same call on the same model yields no verdict of this kind."""
+    import onnx_ir.passes.common as cp
+
+    from vf.props import C04
+
+    m = M(case)
+    kinds = ("invalid:checker", "signature:outputs-elemtype")
+    v1, _ = C04.check(m, case["opts"], [], False)
+    if not any(b.startswith(kinds) for b, _ in v1):
+        return False
+    orig = cp.CommonSubexpressionEliminationPass.call
+    try:
+        cp.CommonSubexpressionEliminationPass.call = lambda self, model: ir_pass_result(model)
+        v2, _ = C04.check(m, case["opts"], [], False)
+    finally:
+        cp.CommonSubexpressionEliminationPass.call = orig
+    return not any(b.startswith(kinds) for b, _ in v2)
+
+
+def ir_pass_result(model):
+    import onnx_ir as ir
+
+    return ir.passes.PassResult(model, modified=False)
+
+
 REGIONS = dict(C05_REGIONS)
+REGIONS["cse_drops_output_type"] = cse_drops_output_type
 REGIONS["value_name_defined_in_several_scopes"] = value_name_defined_in_several_scopes
 REGIONS["ir_version_lt4"] = ir_version_lt4
 REGIONS["bn_training_mode_unused_stats"] = bn_training_mode_unused_stats
